@@ -103,6 +103,11 @@ def _trip(prog, f, v, bb):
     return out
 
 
+def _strip(t):
+    from .lib import strip_iter_calls
+    return strip_iter_calls(t)
+
+
 def _range_len(t):
     """length of `a..b` as a term, when a is the constant 0"""
     if isinstance(t, tuple) and t and t[0] == "agg" and (t[2] or "").endswith("ops::range::Range"):
@@ -156,6 +161,9 @@ def draw_summary(prog, f, memo=None, stack=()):
                     out.append(("opaque-closure", tuple(factors)))
                     continue
                 mult = [("each", ("closure-items", f.key))]
+                rl = _range_len(_strip(args[0])) if args else None
+                if rl is not None:
+                    mult = [("n", rl)]      # `(0..k).map(|_| draw)`: once per element of the range
                 for s in subterms(ret):
                     if is_call(s, name="take") and len(s[2]) == 2 and mentions(s[2][0], lambda x: x == c):
                         mult = [("n", s[2][1])]
